@@ -102,6 +102,15 @@ func c02xProperty(t *rapid.T, st *Stats, owner string) {
 			}
 			h = olareg.New(conf(root))
 			trace = append(trace, "restart")
+			// the collection at Close makes file-system calls too: a fault delivered there belongs to this step
+			if faultStep < 0 {
+				for _, op := range vfs.Log() {
+					if strings.HasSuffix(op.Kind, "!fault") {
+						faultStep, faultOp = i, fmt.Sprintf("%s(%s)", op.Kind, strings.TrimPrefix(op.Path, root))
+						trace = append(trace, "  fault delivered: "+faultOp)
+					}
+				}
+			}
 			continue
 		}
 		if !withWatchdog(30*time.Second, func() { res = s.run(h) }) {
